@@ -1,7 +1,82 @@
-(* C14 (placeholder while the proofs are being moved in) *)
+(* C14 - walk presents exactly the non-empty uncommon and marginal intersections.
+
+   `walk dims` (Cube/Walk.v) mirrors ccube._walk / walk / interactions (ccubes.py:76-152) branch by
+   branch: the `base_rowids is None` case, the intersection of every entry with the running row ids
+   (SetOps kernel = inter_spec on increasing inputs), the pruning of empty intersections, the tail
+   walked again with the coordinate -1 and the unchanged running row ids, the margin emission of
+   the last dimension.  It is the list of (coordinates, row ids) handed to every callback, in call
+   order.  The theorems hold for every number of dimensions, all data, all common values.
+   Hypotheses: every dimension is a well-formed one-axis index over N rows (dim_wf: what
+   iindex.validate checks - the tie runs its boolean twin dim_wf_b on every real dimension) and
+   -1, the marker of a marginal coordinate, is not a category value. *)
 From Coq Require Import ZArith List Bool.
-From Catii Require Import Cube.Dim Cube.Walk Cube.WalkSpec Cube.Check.
+From Catii Require Import Base.Sorted Cube.Dim Cube.Walk Cube.WalkSpec Cube.WalkProofs Cube.Check.
 Import ListNotations.
 Open Scope Z_scope.
-Example c14_smoke : c14_check (3, [([(1, [0; 2])], 0); ([(2, [2])], 0)], [([1; 2], [2]); ([1; -1], [0; 2]); ([-1; 2], [2])]) = true.
-Proof. vm_compute. reflexivity. Qed.
+
+(* The property as an equality of LISTS (hence of multisets): the sequence of callback arguments is
+   the comprehension  [ (c, rows c) | c <- prod_d (uncommon_d ++ [-1]), c <> all -1, rows c <> [] ]
+   with rows c = the increasing rows r < N whose category on every non-marginal dimension is c_d *)
+Theorem C14_walk_spec : forall (N : Z) (dims : list dim),
+  Forall (dim_wf N) dims -> Forall no_margin_key dims ->
+  walk dims = map (fun c => (c, rows_matching N dims c))
+                  (filter (fun c => negb (all_margin c) && nonempty_b (rows_matching N dims c)) (coord_product dims)).
+Proof. exact walk_spec. Qed.
+Print Assumptions C14_walk_spec.
+
+(* membership form: a pair is delivered iff it is a member of the comprehension *)
+Theorem C14_delivered_iff : forall (N : Z) (dims : list dim) (c r : list Z),
+  Forall (dim_wf N) dims -> Forall no_margin_key dims ->
+  (In (c, r) (walk dims) <->
+   In c (coord_product dims) /\ all_margin c = false /\ r = rows_matching N dims c /\ r <> []).
+Proof. exact walk_In. Qed.
+Print Assumptions C14_delivered_iff.
+
+(* exactly once: no coordinate combination is presented twice *)
+Theorem C14_exactly_once : forall (N : Z) (dims : list dim),
+  Forall (dim_wf N) dims -> Forall no_margin_key dims -> NoDup (map fst (walk dims)).
+Proof. exact walk_coords_NoDup. Qed.
+Print Assumptions C14_exactly_once.
+
+(* every combination that is not entirely marginal and is matched by a row IS presented, with its rows *)
+Theorem C14_complete : forall (N : Z) (dims : list dim) (c : list Z),
+  Forall (dim_wf N) dims -> Forall no_margin_key dims ->
+  In c (coord_product dims) -> all_margin c = false -> rows_matching N dims c <> [] ->
+  In (c, rows_matching N dims c) (walk dims).
+Proof. exact walk_complete. Qed.
+Print Assumptions C14_complete.
+
+(* the row ids delivered: strictly increasing, non-empty, exactly the rows below N that match every
+   non-marginal coordinate *)
+Theorem C14_rows : forall (N : Z) (dims : list dim) (c r : list Z),
+  Forall (dim_wf N) dims -> Forall no_margin_key dims -> In (c, r) (walk dims) ->
+  sincr r /\ r <> [] /\ (forall x, In x r <-> 0 <= x < N /\ row_matches dims c x = true).
+Proof. exact walk_rows. Qed.
+Print Assumptions C14_rows.
+
+(* the common category of a dimension is never presented, nor the all-marginal combination *)
+Theorem C14_never_common : forall (N : Z) (dims : list dim) (c r : list Z),
+  Forall (dim_wf N) dims -> Forall no_margin_key dims -> In (c, r) (walk dims) ->
+  Forall2 (fun d k => k = margin \/ (In k (dkeys d) /\ k <> dcommon d)) dims c /\ all_margin c = false.
+Proof. exact walk_never_common. Qed.
+Print Assumptions C14_never_common.
+
+(* non-vacuity: three dimensions over 5 rows (the middle-dimension branch of the walk is exercised), commons
+   0, 7 (absent from the data) and 2; the hypotheses hold (through the boolean twins and their soundness
+   lemmas), 14 pairs are delivered, among them one with two marginal coordinates; the combination
+   (2, 5, 1) is pruned although (2, 5, -1) is delivered *)
+Example C14_nonvacuous :
+  let c14_ex_dims :=
+    mkdims [([(1, [0; 2]); (2, [4])], 0); ([(0, [0; 1; 3]); (5, [2; 4])], 7); ([(1, [1; 2]); (0, [3])], 2)] in
+  Forall (dim_wf 5) c14_ex_dims /\ Forall no_margin_key c14_ex_dims /\
+  walk c14_ex_dims =
+    [([1; 0; -1], [0]); ([1; 5; 1], [2]); ([1; 5; -1], [2]); ([1; -1; 1], [2]); ([1; -1; -1], [0; 2]);
+     ([2; 5; -1], [4]); ([2; -1; -1], [4]); ([-1; 0; 1], [1]); ([-1; 0; 0], [3]); ([-1; 0; -1], [0; 1; 3]);
+     ([-1; 5; 1], [2]); ([-1; 5; -1], [2; 4]); ([-1; -1; 1], [1; 2]); ([-1; -1; 0], [3])] /\
+  walk c14_ex_dims = walk_spec_list 5 c14_ex_dims.
+Proof.
+  cbv zeta.
+  split; [apply forall_dim_wf_b_sound; vm_compute; reflexivity|].
+  split; [apply forall_no_margin_key_b_sound; vm_compute; reflexivity|].
+  split; vm_compute; reflexivity.
+Qed.
